@@ -570,6 +570,27 @@ func (g *Gen) run(n int) {
 						tok = "sha256:c1"
 					}
 					g.emit("SETTIME " + repo + " " + tok + " " + g.pick([]string{"old", "old", "recent"}))
+					// uploading or pushing again what is already there (and old) makes it recent: every form of upload
+					if g.r.Intn(3) == 0 && strings.HasPrefix(tok, "sha256:") {
+						c := strings.TrimPrefix(tok, "sha256:")
+						switch g.r.Intn(4) {
+						case 0:
+							g.emit("UPOST " + repo + " digest=" + tok + " body=" + c)
+						case 1:
+							if out := g.emit("UPOST " + repo); strings.Contains(out, "loc=session:") {
+								sid := out[strings.Index(out, "loc=session:")+len("loc=session:"):]
+								sid = strings.SplitN(strings.SplitN(sid, "?", 2)[0], ":", 2)[1]
+								g.emit("UPUT " + repo + " " + sid + " state=0 digest=" + tok + " body=" + c)
+							}
+						case 2:
+							g.emit("UPOST r2 digest=" + tok + " body=" + c)
+							g.emit("UPOST " + repo + " mount=" + tok + " from=r2")
+						case 3:
+							if mt, ok := g.manMT[c]; ok {
+								g.emit(fmt.Sprintf("MPUT %s %s ct=%s body=%s", repo, g.pick([]string{tok, "t3"}), mt, c))
+							}
+						}
+					}
 				case 4, 5, 6:
 					g.refsStep()
 				case 7:
